@@ -773,7 +773,7 @@ func (vc *VC) mergeStates(edges []edgeState) (*State, T) {
 		for i := len(vals) - 2; i >= 0; i-- {
 			t = ite(edges[i].guard, vals[i], t)
 		}
-		out.heaps[k] = vc.nameTerm("m_"+k, t, vc.heapSort[k])
+		out.heaps[k] = vc.nameTerm2("m_"+k, t, vc.heapSort[k]) // always a constant: merged heaps occur inside triggers
 	}
 	// alloc
 	same := true
